@@ -14,7 +14,7 @@ import (
 func propC16() *fw.Prop {
 	return &fw.Prop{
 		ID: "C16", Level: "exploration",
-		Rule:        "(i) statically valid scripts from the typed generator (all constructs, six types, variables in every position, + and −, bounded overdraft and caps under send-all, allotments with literals / variables / remaining) under random layouts: analysis.CheckSource must report no error-severity diagnostic. (ii) name mutants of those scripts (delete / duplicate / rename a declaration, rename or remove a use, use inside a variable origin before the declaration): an independent name model (declarations and uses with the token spans recorded by the printer) predicts the exact multiset of UnboundVariable / DuplicateVariable / UnusedVar diagnostics (kind, name, range); compared exactly, except where the property leaves the outcome open (a name whose only uses precede its declaration: compared on the unbound part only). Distinct = (construct containing the variable use, mutation kind) and script shapes.",
+		Rule:        "(i) statically valid scripts from the typed generator (all constructs, six types, variables in every position, + and −, bounded overdraft and caps under send-all, allotments with literals / variables / remaining) under random layouts: analysis.CheckSource must report no error-severity diagnostic. (ii) name mutants of those scripts (delete / duplicate / rename a declaration, rename or remove a use, use inside a variable origin before the declaration): an independent name model (declarations and uses with the token spans recorded by the printer) predicts the exact multiset of UnboundVariable / DuplicateVariable / UnusedVar diagnostics (kind, name, range); compared exactly, except where the property leaves the outcome open (a name whose only uses precede its declaration: compared on the unbound part only). Distinct = (construct containing the variable use, mutation kind) and script shapes. Added later: world-like account names; mutations: a metadata value of any shape and typing with uses at every depth, an argument of a call removed, calls with too few arguments.",
 		Assumptions: []string{trustedBase},
 		Require:     []string{"valid_scripts_checked", "name_mutants_checked", "expected_unbound", "expected_duplicate", "expected_unused", "send_all_with_bounded_overdraft"},
 		Run:         runC16,
